@@ -9,8 +9,8 @@ BASE = json.load(open("/root/.vp/BASELINE.json"))["cmd"] if Path("/root/.vp/BASE
 CHECKS = {
  "C17": dict(cat="exploration", ref="§C17, §1.1",
     tech="property-based testing (Hypothesis) over generated WSDL 1.1 / SOAP 1.1 definitions with a reference model of the prescribed envelopes (written from the WsdlSpec alone) and a recording Transport: oracles = service-description fields against the spec, strict parse of the prescribed request into the generated input class, infoset equality of the posted payload with the prescribed request, required HTTP headers and endpoint, and round trip of canned responses and faults through Client.send",
-    text="Generated search over definitions (1-4 operations, document/rpc style, parts by element or by builtin/complex type, optional soap:header and fault, inline or imported schema, varied namespaces, endpoints and SOAPAction strings) and generator options; per operation one request, one response and one fault envelope. Searched, not proved.",
-    note="Stand-ins for click/jinja2/toposort/requests, no ruff; the transport is a recording implementation of xsdata's Transport interface (no network). Output messages are named <operation>Response so that the operation-name and message-name readings of the rpc response wrapper coincide (SOAP 1.1 section 7.1 leaves that name open)."),
+    text="Generated search over definitions (1-4 operations, document/rpc style, parts by element or by builtin/complex type, one or two soap:headers (in messages of their own or next to the body parts) and faults, per-operation style overrides, omitted soapAction, inline or imported schema, definitions split over two documents with wsdl:import, varied namespaces, endpoints and SOAPAction strings) and generator options; per operation one request, one response and one fault envelope. Searched, not proved.",
+    note="Stand-ins for click/jinja2/toposort/requests, no ruff; the transport is alternately a recording implementation of xsdata's Transport interface and xsdata's own DefaultTransport over a recording session object (SOAP faults arrive with HTTP 500); no network. Output messages are named <operation>Response so that the operation-name and message-name readings of the rpc response wrapper coincide (SOAP 1.1 section 7.1 leaves that name open)."),
  "C16": dict(cat="exploration", ref="§C16, §1.1",
     tech="property-based testing (Hypothesis) over generated DTDs: a DtdSpec generator renders the external DTD and builds documents valid by construction; oracles = libxml2 DTD validation of inputs and (in the order-preserving fragment) outputs, and equality of the infosets of doc and serialize(parse(doc)) as libxml2 reports them with the DTD's attribute defaults and fixed values applied",
     text="Generated search over DTDs (EMPTY, ANY, #PCDATA, mixed, nested sequences/choices with ?, *, + on elements and groups; CDATA, ID, IDREF(S), NMTOKEN(S) and enumerated attributes with #REQUIRED/#IMPLIED/#FIXED/default), 1-3 documents each and generator options. Generation must succeed and import, every document must parse strictly, and the default-augmented infoset must survive the round trip (ordered and DTD-valid where repetition is confined to single elements and, with compound fields, choices of single elements). Searched, not proved.",
@@ -18,19 +18,19 @@ CHECKS = {
  "C13": dict(cat="exploration", ref="§C13, §1.1",
     tech="property-based testing (Hypothesis) with a hidden-model round trip: instance documents of a generated regular model (SchemaSpec with one declaration per element name; JSON object shapes) are the only input of the code generator; oracles = strict parse of every sample into the generated root class (unknown properties/attributes and converter warnings are errors) and equality of the re-serialized sample (canonical infoset from an independent libxml2 parse; JSON modulo key order and nulls)",
     text="Generated search over hidden models (nested groups with occurrence ranges, attributes, qualified/unqualified forms, mixed and simple content, recursion, every inferable builtin type; JSON objects with nested objects, arrays of scalars/objects, optional keys, nulls, empty arrays), 1-4 samples per model with canonical value spellings, and generator options. Searched, not proved.",
-    note="Stand-ins for click/jinja2/toposort, no ruff. Element order is compared only where the hidden model has no repeated element or group. Regions of the 7 recorded findings are excluded by construction (nil in some samples; elements that are empty in some samples and not in others; attributes missing from some samples of a childless element; array keys absent from a sample; keys that only hold null/[])."),
+    note="Stand-ins for click/jinja2/toposort, no ruff. Element order is compared only where the hidden model has no repeated element or group. Regions of the 9 recorded findings are excluded by construction (nil in some samples; elements that are empty in some samples and not in others; attributes missing from some samples of a childless element; array keys absent from a sample; keys that only hold null/[])."),
  "C12": dict(cat="exploration", ref="§C12, §1.1",
     tech="property-based testing (Hypothesis) with a differential oracle across invocation routes: generated source sets (SchemaSpec schemas, XML sample sets, the repository's fixture source sets) x generated configurations are generated in fresh interpreters through the API under three PYTHONHASHSEED values, the API twice in one interpreter, the command line with flags, the command line with a project file, and the command line with --cache cold then warm; all file trees must be byte-identical",
     text="Generated search; per case seven generator runs in separate processes, compared path by path and byte by byte with the API run under PYTHONHASHSEED=0 (outcomes compared when generation is refused). Searched, not proved; the hash seeds are 2 of 8 fixed values per case.",
     note="Stand-ins for click/jinja2/toposort, no ruff; the click stand-in implements the documented parsing of the declarations xsdata uses, and options the command line does not expose travel in a partial project file. Recorded finding: warm sources cache with WSDL input (excluded by construction, replayed)."),
  "C07": dict(cat="exploration", ref="§C07, §1.1",
-    tech="property-based testing (Hypothesis) over generated source sets with a hostile name alphabet (XML Schemas from the SchemaSpec generator, irregular XML samples, irregular JSON samples) x the whole output-option space; oracles = outcome classification (success or the generator's own CodegenError), import of every generated module, XmlContext.build + instantiation of every generated class, AST scan of the generated source for names bound twice",
+    tech="property-based testing (Hypothesis) over generated source sets with a hostile name alphabet (XML Schemas from the SchemaSpec generator, sets of schemas importing each other, irregular XML samples, irregular JSON samples) x the whole output-option space; oracles = outcome classification (success or the generator's own CodegenError), import of every generated module, XmlContext.build + instantiation of every generated class, AST scan of the generated source for names bound twice",
     text="Generated search: per case one source set and one point of the option space (structure style, compound fields incl. forced default name, wrapper fields, unnest, frozen/slots/eq/order/kw_only/unsafe_hash/repr, docstring style, naming case and safe prefix per name kind, relative imports, generic collections, line length, header). Generation must end in success or CodegenError; every module must import; every dataclass must yield binding metadata and accept construction; no class body may bind a field twice and no module or class body a class twice. Searched, not proved.",
-    note="Stand-ins for click/jinja2/toposort, no ruff. DTD and WSDL sources are exercised by C16/C17 only with plain names. Class-name schemes stay upper-case and field-name schemes lower-case (with one scheme for both a field and its inner class share a name by configuration); safe prefixes are letters. Regions of the 11 recorded findings (known_findings.json) are excluded by construction: `type` and letter-less names, empty / __class__ JSON keys, <Name>Type named types, XML samples with mixed content, case-colliding names or one local name in two namespaces, multi-sample / multi-namespace sets under non-cluster styles."),
+    note="Stand-ins for click/jinja2/toposort, no ruff. DTD and WSDL sources are exercised by C16/C17 only with plain names. Class-name schemes stay upper-case and field-name schemes lower-case (with one scheme for both a field and its inner class share a name by configuration); safe prefixes are letters. Regions of the 12 recorded findings (known_findings.json) are excluded by construction: `type` and letter-less names, empty / __class__ JSON keys, <Name>Type named types, XML samples with mixed content, case-colliding names or one local name in two namespaces, multi-sample / multi-namespace sets under non-cluster styles."),
  "C02": dict(cat="exploration", ref="§C02, §1.1",
     tech="property-based testing (Hypothesis) over generated XML Schemas: a SchemaSpec generator renders the XSD and builds instance documents valid by construction; oracles = libxml2 XSD validation of schema, inputs and (in the order-preserving fragment) outputs, a typed default-augmented infoset comparison of serialize(parse(doc)) with doc, and a metamorphic comparison between two generator configurations that differ only in output-only options",
     text="Generated search: per case one schema (namespaces and forms, named/anonymous complex types, nested sequence/choice/all particles with occurrence ranges, element refs, substitution groups, named groups, attribute groups, simple types by restriction/list/union/enumeration, attributes with use/default/fixed, wildcards, extension with xsi:type and abstract bases, nillable, simple content, recursion), 1-3 documents, two generator configurations. Generation must succeed, the package import, every document parse under the strictest settings, the typed unordered infoset survive the round trip, the ordered infoset and schema validity survive it in the order-preserving fragment, and both configurations agree. Searched, not proved.",
-    note="Code generation runs through stand-ins for click/jinja2/toposort and without ruff (self-tested against the 28 committed fixture outputs, AST-equal). Global element refs, substitution groups, named groups and attribute groups are generated; import/include and mixed content are not (mixed: four recorded findings), wrapper_fields stays off and the regions of the recorded findings (known_findings.json, 19 entries) are excluded by construction. 'Circular Dependencies' / 'strongly connected types' CodegenErrors are accepted as the documented refusal for non-cluster structure styles."),
+    note="Code generation runs through stand-ins for click/jinja2/toposort and without ruff (self-tested against the 28 committed fixture outputs, AST-equal). Global element refs, substitution groups, named groups and attribute groups are generated; a second family generates 3-5 schemas importing each other (type names recurring across namespaces); xs:include and mixed content are not generated (mixed: four recorded findings), wrapper_fields stays off and the regions of the recorded findings (known_findings.json, 19 entries) are excluded by construction. 'Circular Dependencies' / 'strongly connected types' CodegenErrors are accepted as the documented refusal for non-cluster structure styles."),
  "C19": dict(cat="exploration", ref="§C19",
     tech="schedule exploration with a harness-owned cooperative scheduler (yield points = traced lines touching shared state, installed with threading.settrace): exhaustive single-preemption enumeration for fixed program pairs + property-based (Hypothesis) generation of thread programs and multi-preemption schedules + a free-running stress run; oracle = differential against the sequential outcome on fresh instances",
     text="Threads run generated programs over one shared XmlContext and shared parsers/serializers; the scheduler owns every interleaving decision at line granularity inside the anchored code. Every single preemption of 19 two-thread program pairs is explored, plus generated schedules with up to 4 preemptions for 2-4 threads; each operation's outcome must equal its sequential outcome. Exhaustive for single preemptions of the listed pairs at the chosen yield points, searched elsewhere.",
